@@ -808,6 +808,139 @@ def t3_tables(prog, rep):
                                            ("; also given a character: %s" % extra) if extra else ""), function=g.name, construct="escape-table")
 
 
+JSON_NUMCHARS = set(b"+-0123456789.eE")
+
+
+def _byte_truth(u, f, e, term, k, depth=0):
+    """Truth of condition e when `term` is the byte k: dataflow.decide_with, extended with strchr(table, term) against a constant
+    table defined in the unit (NULL unless the table holds k; the terminator counts, as in C) and with one-argument helper
+    functions of the unit whose body is a single return of such a condition."""
+    from ..dataflow import decide_with
+    e = e.strip() if e is not None else None
+    if e is None:
+        return None
+    if e.cls == "UnaryOperator" and e.op == "!":
+        v = _byte_truth(u, f, e.kid(0), term, k, depth)
+        return None if v is None else not v
+    if e.cls == "BinaryOperator" and e.op in ("&&", "||"):
+        a, b = _byte_truth(u, f, e.kid(0), term, k, depth), _byte_truth(u, f, e.kid(1), term, k, depth)
+        if e.op == "&&":
+            return False if (a is False or b is False) else (True if (a is True and b is True) else None)
+        return True if (a is True or b is True) else (False if (a is False and b is False) else None)
+
+    def ptr_nonnull(x):
+        x = x.strip() if x is not None else None
+        if x is not None and x.cls == "CallExpr" and x.callee == "strchr" and x.arg(0) is not None and x.arg(1) is not None and norm(x.arg(1)) == term:
+            g = norm(x.arg(0))
+            tab = None
+            if g[0] == "v":
+                for gl in u.globals:
+                    if gl.get("name") == g[1] and isinstance(gl.get("init"), dict) and gl["init"].get("str") is not None:
+                        tab = bytes.fromhex(gl["init"]["str"])
+                if tab is None and x.arg(0).strip() is not None and x.arg(0).strip().strv is not None:
+                    tab = x.arg(0).strip().strv
+            elif x.arg(0).strip() is not None and x.arg(0).strip().strv is not None:
+                tab = x.arg(0).strip().strv
+            if tab is not None:
+                return (k in tab) or k == 0
+        return None
+    if e.cls == "BinaryOperator" and e.op in ("==", "!=") and (norm(e.kid(1)) == ("c", 0) or norm(e.kid(0)) == ("c", 0)):
+        other = e.kid(0) if norm(e.kid(1)) == ("c", 0) else e.kid(1)
+        nn = ptr_nonnull(other)
+        if nn is not None:
+            return nn if e.op == "!=" else not nn
+    nn = ptr_nonnull(e)
+    if nn is not None:
+        return nn
+    if e.cls == "CallExpr" and e.callee and depth < 2 and len(e.args) == 1 and e.arg(0) is not None and norm(e.arg(0)) == term:
+        g = u.func(e.callee)
+        if g is not None and len(g.params) == 1:
+            # walk the helper's CFG with its parameter known: each branch is one operand of its && / || chains; a chain of && and ||
+            # (no negation around a chain) has the truth value of the operand evaluated last
+            P = ("v", g.params[0]["name"], g.params[0]["id"])
+            cur, last, hops = g.entry, None, 0
+            came_by_branch = False
+            while cur is not None and hops < 64:
+                hops += 1
+                blk = g.blocks[cur]
+                rets = [x for x in blk.elems if x.cls == "ReturnStmt"]
+                if rets:
+                    r = rets[0].kid(0).strip() if rets[0].kids and rets[0].kid(0) is not None else None
+                    if r is None:
+                        return None
+                    if r.cls == "BinaryOperator" and r.op in ("&&", "||"):
+                        if "!(" in r.text.replace(" ", "") and any(r.text.replace(" ", "")[i:i + 3] == "!((" for i in range(len(r.text))):
+                            return None
+                        if not came_by_branch:
+                            # no edge short-circuited past the last operand: it was evaluated on the way here, and is the value
+                            rk = r.kid(1)
+                            return _byte_truth(u, g, rk, P, k, depth + 1) if rk is not None else None
+                        return last
+                    return _byte_truth(u, g, r, P, k, depth + 1)
+                if blk.cond is not None and len(blk.succs) == 2:
+                    d = _byte_truth(u, g, blk.cond, P, k, depth + 1)
+                    if d is None:
+                        return None
+                    last = d
+                    came_by_branch = True
+                    cur = blk.succs[0] if d else blk.succs[1]
+                else:
+                    if blk.elems:
+                        came_by_branch = False
+                    cur = blk.succs[0] if blk.succs else None
+            return None
+    return decide_with(e, term, k)
+
+
+def t3_numchars(prog, rep):
+    """skip_number passes exactly the fifteen characters a JSON number is made of (sign, digits, point, either exponent marker):
+    with the byte under the cursor set to each value 0..255, the loop advances exactly for "+-0123456789.eE" -- whether the test is
+    a strchr over a table, a helper function or a chain of comparisons.  A number with an exponent the scanner stops in ends the
+    search for every later key."""
+    u = prog.unit("util/json.c")
+    f = u.func("skip_number")
+    if f is None:
+        raise cdb.AnalysisBroken("anchor missing: skip_number")
+    P = ("v", f.params[0]["name"], f.params[0]["id"])
+    terms = (("[]", P, ("c", 0)), ("*", P))
+    order = {bid: i for i, bid in enumerate(f.rpo())}
+    tests = sorted([b for b in f.blocks.values() if b.cond is not None and len(b.succs) == 2 and any(_byte_truth(u, f, b.cond, t, 48) is not None for t in terms)],
+                   key=lambda b: order.get(b.id, 1 << 30))
+    if not tests:
+        rep.bad("T3-tables", "skip_number tests the byte under the cursor", f.loc, "no decidable test of buf[0] found", function=f.name, construct="numchars")
+        return
+    passed = set()
+    for k in range(256):
+        cur, hops, out = tests[0].id, 0, None
+        while out is None and hops < 64:
+            hops += 1
+            blk = f.blocks[cur]
+            if any(ir.step(e) and ir.step(e)[1] == P for e in blk.elems):
+                out = "skip"
+                break
+            if any(e.cls == "ReturnStmt" for e in blk.elems) or not blk.succs:
+                out = "stop"
+                break
+            if blk.cond is not None and len(blk.succs) == 2:
+                d = None
+                for t in terms:
+                    if d is None:
+                        d = _byte_truth(u, f, blk.cond, t, k)
+                if d is None:
+                    out = "stop"
+                    break
+                cur = blk.succs[0] if d else blk.succs[1]
+            else:
+                cur = blk.succs[0]
+            if cur is None:
+                out = "stop"
+        if out == "skip":
+            passed.add(k)
+    want = set(JSON_NUMCHARS) | {0}
+    rep.check(passed in (set(JSON_NUMCHARS), want), "T3-tables", "skip_number passes exactly the characters of a JSON number", tests[0].cond.where,
+              "bytes passed: %r; a JSON number is made of %r" % (bytes(sorted(passed - {0})), bytes(sorted(JSON_NUMCHARS))), function=f.name, construct="numchars")
+
+
 def t3_unicode(prog, rep):
     """Names written with \\u escapes never match: in match_str, every way through the 'u' arm of the escape switch either
     answers `end` or stores 0 into *foundit before it rejoins the other arms (the verdict is sticky: nothing stores 1 after the
@@ -1160,6 +1293,17 @@ def t4(prog, rep):
         okf = any(op == "!=" and colon(L) and R == ("c", 0) for op, L, R in a6) and any(op == "==" and colon(L) and R == ("c", 0) for op, L, R in a4)
     rep.check(okf, "T4-sockaddr", "a bracketed literal is IPv6 exactly when it contains ':'", r.loc, "", function="sock_resolve", construct="family")
     rep.check(last_colon and br == {"[", "]"}, "T4-sockaddr", "sock_resolve accepts [addr]:port split at the last colon", r.loc, "", function="sock_resolve", construct="resolve-form")
+    # the port is a decimal numeral: whichever conversion the parse macro selects for the port variable's type is given base 10 (and
+    # no trailing characters) -- base 0 would read `:010` as 8 and `:0x50` as 80, denoting other addresses
+    pcs = [c for c in r.calls() if c.callee in ("parsenum_signed", "parsenum_unsigned") and c.block.id in r.reachable()]
+    okp = bool(pcs)
+    for c in pcs:
+        base = norm(c.args[-2]) if len(c.args) >= 2 and c.args[-2] is not None else None
+        trail = norm(c.args[-1]) if c.args and c.args[-1] is not None else None
+        if base != ("c", 10) or trail != ("c", 0):
+            okp = False
+    rep.check(okp, "T4-sockaddr", "sock_resolve parses the port in base 10 with nothing after it", (pcs[0].where if pcs else r.loc),
+              "bases / trailing flags given: %s" % [(show(norm(c.args[-2])), show(norm(c.args[-1]))) for c in pcs], function="sock_resolve", construct="port-base")
     # a path (first character '/') goes to the Unix resolver and nothing else does
     A0 = ("v", r.params[0]["name"], r.params[0]["id"])
 
@@ -1254,6 +1398,7 @@ def run(tier):
         t3_escape(prog, rep)
         t3_unicode(prog, rep)
         t3_tables(prog, rep)
+        t3_numchars(prog, rep)
         from . import c14
         c14.leak_rules(prog, rep, only_files=("util/sock.c", "util/sock_util.c", "util/b64encode.c", "util/hexify.c", "util/json.c"))
         c14.reported_rule(prog, rep, only_files=("util/sock.c", "util/sock_util.c"))
